@@ -27,6 +27,11 @@ def split_derived_vars(fi):
     return out
 
 
+def _is_split_source(it, sv):
+    return (isinstance(it, ast.Call) and isinstance(it.func, ast.Attribute) and
+            it.func.attr in ('split', 'splitlines', 'rsplit')) or (isinstance(it, ast.Name) and it.id in sv)
+
+
 def piece_loops(fi):
     """[(For node, piece variable name)] for loops over the pieces of a split"""
     sv = split_derived_vars(fi)
@@ -40,12 +45,31 @@ def piece_loops(fi):
             it = it.args[0]
             if isinstance(tgt, ast.Tuple) and len(tgt.elts) == 2:
                 tgt = tgt.elts[1]
-        is_split = (isinstance(it, ast.Call) and isinstance(it.func, ast.Attribute) and
-                    it.func.attr in ('split', 'splitlines', 'rsplit')) or \
-            (isinstance(it, ast.Name) and it.id in sv)
-        if is_split and isinstance(tgt, ast.Name):
+        if _is_split_source(it, sv) and isinstance(tgt, ast.Name):
             out.append((n, tgt.id))
     return out
+
+
+def piece_comprehensions(fi):
+    """[(ListComp/GeneratorExp node, piece variable name)]: comprehensions over the pieces of a split (the canonical form of
+    `for p in x.split(sep): out.append(f(p))`)"""
+    sv = split_derived_vars(fi)
+    out = []
+    for n in own_nodes(fi.node):
+        if isinstance(n, (ast.ListComp, ast.GeneratorExp)) and len(n.generators) == 1:
+            g = n.generators[0]
+            it, tgt = g.iter, g.target
+            if isinstance(it, ast.Call) and isinstance(it.func, ast.Name) and it.func.id == 'enumerate' and it.args:
+                it = it.args[0]
+                if isinstance(tgt, ast.Tuple) and len(tgt.elts) == 2:
+                    tgt = tgt.elts[1]
+            if _is_split_source(it, sv) and isinstance(tgt, ast.Name):
+                out.append((n, tgt.id))
+    return out
+
+
+def piece_vars(fi):
+    return {p for _, p in piece_loops(fi)} | {p for _, p in piece_comprehensions(fi)}
 
 
 def derived(loop, piece):
@@ -169,6 +193,30 @@ def run(chk):
                          key='C03-P|%s|%s|exit-without-sink after `%s`' % (fq, piece, last.label[:50]))
             if not sinks:
                 raise AnalysisError('%s: no attach sink recognised in the loop over `%s`' % (fq, piece))
+    # comprehensions over split pieces: a total map (one element per piece) whose result is kept
+    for fq in PARSE_LOOPS:
+        fi = ix.func(fq)
+        for comp, piece in piece_comprehensions(fi):
+            nloops += 1
+            gen = comp.generators[0]
+            filt = [t for t in gen.ifs if not is_emptiness_test(t, piece)]
+            uses = piece in names_in(comp.elt)
+            par = getattr(comp, '_parent', None)
+            kept = (isinstance(par, ast.Call) and isinstance(par.func, ast.Attribute) and par.func.attr in ('extend', 'append')) or \
+                isinstance(par, (ast.Assign, ast.Return)) or \
+                (isinstance(par, ast.Call) and isinstance(par.func, ast.Name) and par.func.id in ('list', 'tuple'))
+            construct = '%s: comprehension over pieces `%s`' % (fq, piece)
+            where = '%s:%d' % (fi.module.relpath, comp.lineno)
+            if filt:
+                chk.fail('C03-P', construct, 'pieces are filtered by `%s`, which is not an emptiness test: a non-empty piece can be '
+                                             'dropped silently' % norm(filt[0])[:60], where,
+                         key='C03-P|%s|%s|filter' % (fq, piece))
+            elif not uses or not kept:
+                chk.fail('C03-P', construct, 'the element built from the piece is not kept (%s)' % (
+                    'the piece is not used' if not uses else 'the list is discarded'), where,
+                    key='C03-P|%s|%s|discarded' % (fq, piece))
+            else:
+                chk.ok('C03-P', construct, 'total map, result kept', where, key='C03-P|%s|%s' % (fq, piece))
     chk.floor('loops over split pieces in the parser', nloops, 5)
 
     # ---- O
